@@ -772,14 +772,25 @@ class Explorer(object):
 
     def negative_count(self, case, bits, cfg, m, ref):
         """'-1 x #b-> ...': the reference has no value for it; the machine must either report an error or leave
-        the input position and output length untouched."""
+        the input position and output length untouched.  Run in a child process: the C++ walks out of its buffers."""
         self.st.transitions += 1
-        pool_err = m.run()
-        d = R.describe(m.snapshot())
+
+        def child():
+            mm = forth.ForthMachine(case.source, bits, cfg[0], cfg[1], cfg[2], cfg[3])
+            mm.set_inputs(case.inputs)
+            err = mm.run()
+            return err, mm.snapshot()
+        kind, payload = isolated(child)
+        if kind != "ok":
+            self.flag("crash", "a negative repeat count killed the machine (%s %s)" % (kind, payload), case, bits, cfg,
+                      hazard="negative-count", at=ref.last_tag)
+            return
+        err, snap = payload
+        d = R.describe(snap)
         bad = [p for p in d["input_positions"] if p < 0] or [o for o in d["outputs"] if isinstance(o[1], str)]
-        if pool_err == 0 and bad:
+        if err == 0 and bad:
             self.flag("wrong-result", "a negative repeat count moved the input position / output length below zero "
-                      "without an error: %s" % d, case, bits, cfg, cond="negative-count")
+                      "without an error: %s" % d, case, bits, cfg, hazard="negative-count", at=ref.last_tag)
 
     def cpp_sequence(self, m, mode, limit):
         if mode == "run":
